@@ -801,7 +801,7 @@ namespace BitSerializer::Convert::Utf
 			for (size_t i = 0; i < inputString.size(); ++i)
 			{
 				// Detecting UTF-32 (LE/BE)
-				if (i % sizeof(Utf32Le::char_type) == 0 && i + sizeof(Utf32Le::char_type) < inputString.size())
+				if (i % sizeof(Utf32Le::char_type) == 0 && i + sizeof(Utf32Le::char_type) <= inputString.size())
 				{
 					if (const uint32_t sym = Memory::NativeToLittleEndian(*reinterpret_cast<const uint32_t*>(&inputString[i])); sym != 0)
 					{
@@ -818,7 +818,7 @@ namespace BitSerializer::Convert::Utf
 					}
 				}
 				// Detecting UTF-16 (LE/BE)
-				if (i % sizeof(Utf16Le::char_type) == 0 && i + sizeof(Utf16Le::char_type) < inputString.size())
+				if (i % sizeof(Utf16Le::char_type) == 0 && i + sizeof(Utf16Le::char_type) <= inputString.size())
 				{
 					if (const uint16_t sym = Memory::NativeToLittleEndian(*reinterpret_cast<const uint16_t*>(&inputString[i])); sym != 0)
 					{
